@@ -131,6 +131,9 @@ def run(ctx):
         if not all(c.endswith("try_with") for c in v):
             r.violate(k + "|try_with", f"{k} accesses the thread-local with {sorted(v)} (a panic during thread teardown would unwind into C)", None)
 
+    # ------------------------------------------------------------------ R18.6 (generic, scoped to this property's anchors)
+    sm.rule_named_plumbing(ctx, core, "C18", "R18.6", floor=3)
+
     ctx.not_decided += ["equality of outputs between concurrent and sequential runs as such (a run-time relation); determinism is decided through absence of shared state"]
     return ("Absence-of-shared-state scans over both crates (statics with their Freeze/thread_local/mut classification from rustc, unsafe Send/Sync impls, "
             "lazy globals, hash iteration) plus compile-time Send witnesses.")
